@@ -11,6 +11,7 @@ STABLE PUBLIC API (reused by C03 C08 C09 C10 C30 C32 C35 C38; do not change sign
     identifiers(prog)                  -> sorted list of every renameable identifier the program mentions
     count_nodes(prog), walk(prog)      -> helpers
     vt.ref.interp.interpret(prog, data) -> str    reference output (raises RefError / Ambiguous / Budget)
+    vt.ref.interp.interpret_ex(prog, data, guard=True) -> Result(kind ok|error|declined, value, labels, why)
 
 A *program* is a JSON list of statements; a statement / expression is a JSON list whose first item
 is the tag.  ``body`` below is again a list of statements, ``e`` an expression, names are strings.
@@ -44,9 +45,17 @@ is the tag.  ``body`` below is again a list of statements, ``e`` an expression, 
     ["looprec", n]                                (loop(n) if n is a list else '') in a recursive loop
 
 Name pools: variables VARS (shared between template assignments and the render data), macro names
-MACROS, namespace names NSS, namespace attributes ATTRS.  A macro body named m<k> only calls m<j>, j<k,
-so every program terminates.  Constructs whose behaviour the documentation does not define are not
-generated (see the "excluded by construction" notes in the code).
+MACROS, namespace names NSS, namespace attributes ATTRS.  Termination: a macro body named m<k> only calls
+m<j>, j<k; ``loop(x)`` is only generated for the first target x of the enclosing recursive loop and x is never
+reassigned inside that loop (so the recursion descends into the data); loops nest at most 3 deep over
+sequences of at most 3 items.  Values can still grow (``a ~ a`` in nested loops): callers that render without
+the reference interpreter can use ``interpret_ex(prog, data, guard=False)`` as a resource probe (kind
+"declined" / value "Budget" = do not render).  Constructs whose behaviour the documentation does not define
+are not generated (see the "excluded by construction" notes in the code): break/continue inside buffering
+blocks, loop else branches or across macro boundaries; filter-section / block-set filter arguments that read
+variables; filter sections with non-string filters; loop filters that can raise, read namespaces or call
+macros; ``loop.*`` / ``caller`` across macro and call-block boundaries; macros used as values; macro defaults
+reading their own or later parameters.
 
 Alpha-renaming: ``print_program(prog, rename)`` substitutes identifiers consistently (variables,
 macro names, parameters, keyword-argument names, namespace names; not filter names, ``loop``,
